@@ -21,12 +21,17 @@ import time
 HERE = os.path.dirname(os.path.abspath(__file__))
 VERIF = os.path.dirname(HERE)
 REPO = os.environ.get("VERIF_REPO", "/repo")
-COQ = os.path.join(VERIF, "coq")
 BUILD = os.path.join(VERIF, "_build")
+# A tree other than /repo (VERIF_REPO=..., used to try mutations) is built in its own copy of coq/, so that the
+# shared build directory always reflects /repo.
+ALT = os.path.realpath(REPO) != "/repo"
+COQ = os.path.join(VERIF, "coq") if not ALT else os.path.join(
+    BUILD, "alt", hashlib.md5(os.path.realpath(REPO).encode()).hexdigest()[:8], "coq")
 PY = "/venv/bin/python"
 
 sys.path.insert(0, HERE)
 import project  # noqa: E402
+project.COQ = COQ
 
 EXN_CODES = {1: "ValueError", 2: "SUITError", 3: "GeneratorError", 4: "OverflowError", 5: "SignerError",
              6: "IndexError", 7: "TypeError", 8: "KeyError", 9: "AttributeError", 10: "StructError",
@@ -162,6 +167,13 @@ class Check:
     def prepare(self):
         """Steps 1 and 2: regenerate, build the theorem file and the executable model."""
         with Lock():
+            if ALT:
+                os.makedirs(COQ, exist_ok=True)
+                rc, out = sh(["rsync", "-a", "--delete", "--exclude", "gen/", "--exclude", "Makefile*", "--exclude", ".Makefile*",
+                              os.path.join(VERIF, "coq") + "/", COQ + "/"])
+                if rc:
+                    raise RuntimeError("rsync failed: " + out[-400:])
+                os.makedirs(os.path.join(COQ, "gen"), exist_ok=True)
             self._regen()
             project.write_project(self.prop, self.runs)
             rc, out = sh("coq_makefile -f _CoqProject -o Makefile", cwd=COQ)
@@ -172,7 +184,7 @@ class Check:
             self._build_driver()
 
     def _regen(self):
-        rc, out = sh([PY, os.path.join(VERIF, "translator", "regen.py"), "--repo", REPO] + self.units,
+        rc, out = sh([PY, os.path.join(VERIF, "translator", "regen.py"), "--repo", REPO, "--out", os.path.join(COQ, "gen")] + self.units,
                      env={"PYTHONPATH": REPO, "PYTHONHASHSEED": "0"})
         if rc:
             raise RuntimeError("translator crashed: " + out[-2000:])
@@ -230,7 +242,7 @@ class Check:
 
     def _build_driver(self):
         rc, out = self._make([f"Run/Extract_{self.prop}.vo"])
-        d = os.path.join(BUILD, "ocaml", self.prop)
+        d = os.path.normpath(os.path.join(COQ, "..", "_build", "ocaml", self.prop))
         if rc:
             raise RuntimeError("extraction failed: " + out[-2000:])
         src = open(os.path.join(VERIF, "ocaml", "driver.ml")).read()
